@@ -29,6 +29,10 @@ CLAIMED = {
    technique="TLA+ spec of evaluation contexts and meta blocks (Xeh.tla Open/Close/Purge/EmitResults), TLC over expression x position x prior state x style; block-vs-inlined twin replay on the real crate; seeded twins validated by TLC (Trace_TwinObs)",
    text="TLC checks on the design, for every constant expression, position, prior state and submission style, that the program with the meta block equals the program with the block's values inlined (last result first), that only constants survive the block, that a failing block rejects the source without touching anything, and that compile leaves stack and existing variables unchanged. Every scenario is replayed on the real crate (twin + prediction + dictionary purge + compile purity); seeded expressions whose value is computed by the implementation's own eval are compared block-vs-inlined at seven positions and validated by the twin-run trace specification.",
    note="Inside another meta block the stack is shared and values are not reversed (pinned by the suite): only single-valued stack-insensitive blocks are judged there; expressions needing a variable are refused in meta mode by design and skipped."),
+ "C04": dict(cat="model_checking", design="5/C04",
+   technique="TLA+ refinement BitstrStore.tla (buffers, reference counts, borrowed flag, bit ranges) => Bits.tla (plain sequences) checked by TLC over all reachable layouts; every explored transition replayed on xeh::bitstr::Bitstr; seeded long histories validated by TLC (Trace_Bits)",
+   text="TLC explores every layout reachable within the bounds (3 handles, 3 buffers, history depth 3-4, byte patterns with both kinds of stale bit) and checks that each implementation-shaped operation (detach with its unique-owner case, append fast and slow path, insert, invert, views) yields exactly the plain-sequence result and leaves the operands unchanged. Each of the explored transitions is one test on the real Bitstr: the pre-state layout (exact bytes, ownership, borrowed flag, ranges) is rebuilt through the public API, the operation applied and every live handle compared (bits, iter8, len, hex, bytes, ==). Seeded 30-operation histories on 8 handles are validated by a trace specification that conjoins each event with the abstract operator. A regression configuration shows the pinned append design is still rejected.",
+   note="Exhaustive inside the stated constants only; positions of seek/substr are taken relative to start(); derived views are compared with reference functions of the predicted bits."),
 }
 
 PENDING_REASON = "check not built yet in this build session (planned, DESIGN.md section 12); no claim is made for it"
